@@ -10,6 +10,7 @@ git -C /repo apply "$D/patch.diff" 2>/dev/null || git -C /repo apply --3way "$D/
 SCR=/dev/shm/seeded-$$; mkdir -p $SCR/evidence $SCR/replays; cp /verif/known_findings.json $SCR/
 cd /verif/harness
 if cargo build --release -q 2>$SCR/build.log; then
+  case " $IDS " in *" C16 "*) cargo build -q 2>>$SCR/build.log;; esac
   for ID in $IDS; do
     NVCHECK_ROOT=$SCR timeout 1500 ./target/release/check $ID --tier quick > $SCR/$ID.out 2>&1; RC=$?
     if [ $RC -eq 1 ]; then echo "DETECTED $ID: $(grep -m1 -A1 '^VIOLATION' $SCR/$ID.out | tail -1 | cut -c1-300)"; else echo "MISSED $ID (exit $RC): $(grep SUMMARY $SCR/$ID.out | cut -c1-200)"; fi
@@ -19,4 +20,5 @@ else
 fi
 git -C /repo checkout -- . ; git -C /repo clean -fdq -- . 2>/dev/null
 cargo build --release -q 2>/dev/null
+case " $IDS " in *" C16 "*) cargo build -q 2>/dev/null;; esac
 rm -rf $SCR
